@@ -370,7 +370,9 @@ def floorset_data(c):
     areas = np.array([float(sum((r[2] - r[0]) * (r[3] - r[1]) for r in b["rects"])) * u * u for b in c["blocks"]])
     pc = np.zeros((len(polys), 5))
     for i, b in enumerate(c["blocks"]):
-        pc[i, 0] = 1 if b["kind"] == "hard" else 0
+        # FloorSet: column 0 = fixed shape (-> FRAME hard), column 1 = pre-placed (-> FRAME fixed; a pre-placed block
+        # cannot move, whether or not its shape is also flagged as fixed)
+        pc[i, 0] = 1 if b["kind"] == "hard" or (b["kind"] == "fixed" and b.get("both")) else 0
         pc[i, 1] = 1 if b["kind"] == "fixed" else 0
     pins = np.array([[p[0] * u, p[1] * u] for p in c["pins"]], dtype=np.float64)
     b2b = np.array([[e[0], e[1], e[2]] for e in c["b2b"]], dtype=np.float64).reshape(-1, 3)
@@ -447,6 +449,8 @@ def run_floorset(c):
         cls.append("pin-not-on-lower-left")
     if any(len(b["rects"]) >= 3 for b in c["blocks"]):
         cls.append("polygonal-block")
+    if any(b["kind"] == "fixed" and b.get("both") for b in c["blocks"]):
+        cls.append("preplaced-and-fixed-shape")
     return dict(nt=len(c["blocks"]) >= 2 and any(w != 1 for _, w in nets_before), cls=cls)
 
 
@@ -458,7 +462,8 @@ def floorset_s(draw):
     blocks = []
     for i in range(nb):
         rects, _ = draw(stog_rects(i * S + 1, 1, 2, 4, 3, 5))
-        blocks.append(dict(rects=rects, kind=draw(st.sampled_from(["soft", "soft", "hard", "fixed"])), cw=draw(st.booleans())))
+        blocks.append(dict(rects=rects, kind=draw(st.sampled_from(["soft", "soft", "hard", "fixed"])), cw=draw(st.booleans()),
+                           both=draw(st.booleans())))
     W, H = nb * S, S
     pins = [[W, draw(_i(0, H))], [draw(_i(0, W)), H]]  # the die is spanned by the pins
     for _ in range(draw(_i(0, 4))):
@@ -651,7 +656,7 @@ def subchecks():
             required=("generated", "initial", "after-refine", "after-griddify", "depth>0", "cell-in-region")),
         Sub("netgen", run_netgen, enum=netgen_cases, exhaustive=True, desc="every listed topology at every listed size through netgen.main"),
         Sub("floorset", run_floorset, strategy=floorset_s(), n_quick=1200, n_thorough=25000,
-            required=("tam", "terminals", "density", "pin-not-on-lower-left", "polygonal-block")),
+            required=("tam", "terminals", "density", "pin-not-on-lower-left", "polygonal-block", "preplaced-and-fixed-shape")),
         Sub("rectio-alloc", run_rectio_alloc, strategy=st.builds(lambda c, r: dict(c, rename=r), A.alloc_case(allow_fixed=False), st.booleans()),
             n_quick=1200, n_thorough=25000),
         Sub("rectio-solution", run_rectio_solution, strategy=rectio_solution_s(), n_quick=1200, n_thorough=25000,
